@@ -36,6 +36,16 @@ void harness(void) {
 	{
 		size_t off = IN.off, hdr = 777, tag = 777, dsz = 777;
 		uint8_t cls = 77, ps = 77, *data = NULL;
+#ifdef KF_ASN_TAG_INDEX	/* known finding: universal class + long-form tag >= 32 indexes asn_class_uni_ps[32] out of bounds */
+		{
+			size_t o = (IN.flags & 1) ? 0 : IN.off;
+			if (o <= LEN && LEN - o >= 2 && (src[o] & 0xc0) == 0 && (src[o] & 0x1f) == 0x1f) {
+				size_t t = 0, k = o + 1;
+				do { t = (t << 7) | (size_t)(src[k] & 0x7f); } while ((src[k++] & 0x80) && k < LEN);
+				V_ASSUME(t < 32);
+			}
+		}
+#endif
 		int r = asn_parse(src, LEN, (IN.flags & 1) ? NULL : &off, (IN.flags & 2) ? NULL : &hdr, &cls, &ps,
 		    (IN.flags & 4) ? NULL : &tag, (IN.flags & 8) ? NULL : &data, (IN.flags & 16) ? NULL : &dsz);
 		size_t off0 = (IN.flags & 1) ? 0 : IN.off;
@@ -55,15 +65,18 @@ void harness(void) {
 	}
 #elif FN == 4
 	{
-		uint32_t c = IN.crc;
-		c = crc32a_update(c, src, LEN); c = crc32cksum_update(c, src, LEN); c = crc32mpeg2_update(c, src, LEN);
-		c = crc32b_update(c, src, LEN); c = crc32jamcrc_update(c, src, LEN); c = crc32c_update(c, src, LEN);
-		c = crc32d_update(c, src, LEN); c = crc32q_update(c, src, LEN);
-		c = crc32_normal8(crc32_tbl256_04c11db7, c, src, LEN);
-		c = crc32_reflect8(crc32_tbl256_edb88320, c, src, LEN);
-		c = crc32_normal4(crc32_tbl256_04c11db7, c, src, LEN);
-		c = crc32_reflect4(crc32_tbl16_1edc6f41, c, src, LEN);
-		c = crc32_reflect(crc32_tbl256_edb88320, NULL, c, src, LEN);
+		uint32_t c = 0, c0 = IN.crc;	/* every call starts from the same symbolic value: no 13-deep dependency chain */
+		c ^= crc32a_update(c0, src, LEN); c ^= crc32b_update(c0, src, LEN);
+		c ^= crc32_normal8(crc32_tbl256_814141ab, c0, src, LEN);
+		c ^= crc32_reflect8(crc32_tbl256_a833982b, c0, src, LEN);
+#if LEN < 40
+		c ^= crc32cksum_update(c0, src, LEN); c ^= crc32mpeg2_update(c0, src, LEN);
+		c ^= crc32jamcrc_update(c0, src, LEN); c ^= crc32c_update(c0, src, LEN);
+		c ^= crc32d_update(c0, src, LEN); c ^= crc32q_update(c0, src, LEN);
+		c ^= crc32_normal4(crc32_tbl256_04c11db7, c0, src, LEN);
+		c ^= crc32_reflect4(crc32_tbl16_1edc6f41, c0, src, LEN);
+		c ^= crc32_reflect(crc32_tbl256_edb88320, NULL, c0, src, LEN);
+#endif
 		volatile uint32_t sink = c; (void)sink;
 		V_WITNESS("crc32 family returned");
 	}
